@@ -3,12 +3,17 @@
 (* replacing any run of fields by an embedded struct, does not change the    *)
 (* erased schema (hence not the columns, hence - by Stripe - not the file).  *)
 EXTENDS Dremel
-CONSTANTS MaxNodes, ForgetHoist
+CONSTANTS MaxNodes, ForgetHoist, TwoSteps
 VARIABLES base, deco
 vars == <<base, deco>>
+\* one decoration step applied to a (possibly already decorated) struct tree
+Steps(k) == {InsertExcl(k, s[1], s[2]) : s \in ExclSites(k)}
+            \cup {EmbedRun(k, s[1], s[2], s[3]) : s \in {t \in EmbedSites(k) : t[2] + t[3] - 1 <= Len(KidsAt(k, t[1]))}}
+\* one or two steps: the second one may land inside the struct introduced by the first (an embedded struct that itself
+\* embeds a struct or holds an excluded field), next to it, or anywhere else
 Init == /\ base \in Shapes(MaxNodes, 3, 3)
-        /\ \/ \E s \in ExclSites(base) : deco = InsertExcl(base, s[1], s[2])
-           \/ \E s \in {t \in EmbedSites(base) : t[2] + t[3] - 1 <= Len(KidsAt(base, t[1]))} : deco = EmbedRun(base, s[1], s[2], s[3])
+        /\ \/ deco \in Steps(base)
+           \/ TwoSteps /\ \E d1 \in Steps(base) : deco \in Steps(d1)
 Next == UNCHANGED vars
 Spec == Init /\ [][Next]_vars
 E(k) == IF ForgetHoist THEN SelectSeq(Erase(k), LAMBDA n : TRUE) \o (IF \E i \in 1..Len(k) : IsEmb(k[i]) THEN << [rep |-> "req", kids |-> <<>>] >> ELSE <<>>) ELSE Erase(k)
